@@ -234,6 +234,11 @@ LSTerms ==
      App("gs", GS, <<P, K1s>>), App("gs", GS, <<Op("and", <<P, Qs>>), App("fs", FS, <<K2s, IntC(1)>>)>>),
      Op("array_select", <<AS, K1s>>), Op("and", <<Op("array_select", <<AS, K1s>>), P>>),
      Op("equals", <<PP, PP>>), Quant("forall", <<BVar("k1", TSs)>>, Op("equals", <<K1s, K2s>>)),
+     \* quantifiers in NON-Boolean positions: the condition of a term-level ite, a Boolean argument of a function
+     Op("lt", <<Op("ite", <<Quant("forall", <<BVar("y", TInt)>>, Op("le", <<Xx, Yy>>)), Xx, Sym("z", TInt)>>), IntC(3)>>),
+     App("gs", GS, <<Quant("exists", <<BVar("p", TBool)>>, Op("or", <<P, Qs>>)), K1s>>),
+     Op("equals", <<Op("ite", <<Quant("exists", <<BVar("b", TBV(2))>>, Op("bv_ult", <<Bb, Cc>>)), Bb, Cc>>), Cc>>),
+     Op("le", <<Op("plus", <<Op("ite", <<Op("not", <<Quant("forall", <<BVar("x", TInt)>>, Op("le", <<Xx, Yy>>))>>), IntC(1), Yy>>), Xx>>), IntC(0)>>),
      Op("equals", <<Sym("ap", TArray(TInt, TPair)), Sym("ap2", TArray(TInt, TPair))>>),
      Op("equals", <<Op("array_select", <<Sym("ap", TArray(TInt, TPair)), Xx>>), PP>>),
      App("gp", TFun(TBool, <<TPair, TArray(TSs, TPair)>>), <<PP, Sym("asp", TArray(TSs, TPair))>>),
